@@ -124,6 +124,17 @@ def run(ctx):
     failures = vlib.lean_failures(prop, lean)
     ctx.log(f"lean: built={lean['built']} ok={lean['ok']} theorems={len(lean['theorems'])}")
     extra = []
+    generated = []
+    if prop in vlib.ARITH_THEOREMS:
+        # the paging arithmetic of (*Blockchain).Blocks, regenerated from the source on this run
+        gen, obs, afails, aths = vlib.arith_tie(prop)
+        if gen:
+            generated.append(gen)
+        extra += obs
+        failures += afails
+        lean["theorems"] = lean["theorems"] + aths
+        lean["ok"] = lean["ok"] and all(t["ok"] for t in aths) and not afails
+        ctx.log(f"arith tie (Gen.blocksRange regenerated): {'ok' if not afails else 'NOT ok'}")
     driver = vlib.lean_exe("core", "rudriver")
 
     ok_d, bin_d, log_d = vlib.go_build("rudefects")
@@ -211,7 +222,8 @@ def run(ctx):
         corr["samples"] = ["(no non-trivial scenario)"]
     extra.append({"name": "correspondence rutrace: model = implementation after every operation; RuSpec predicates hold on the implementation's state", "ok": corr_ok})
     ctx.log(f"rutrace: {corr['scenarios']} scenarios, {corr['evaluations']} ops, {corr['distinct_nontrivial']} non-trivial, failures={sorted(seen)}")
-    return vlib.result(lean=lean, corr=corr, failures=failures, extra_obligations=extra, assumptions=ASSUMPTIONS, trusted_base=TRUSTED)
+    return vlib.result(lean=lean, corr=corr, failures=failures, generated=generated, extra_obligations=extra,
+                       assumptions=ASSUMPTIONS, trusted_base=TRUSTED)
 
 
 def replay(ctx, body):
